@@ -42,7 +42,7 @@ def run(rep: Report, prog: Program, tier: str) -> None:
     rep.trusted_base = ["sa/absint.py typestate engine", "Retry.call/execute as one opaque event"]
     rep.assumptions = ["the user's classifier returns the same class for the same exception twice"]
     rep.not_decided = ["classifier determinism (the final failure is classified once by the loop and once for the breaker)"]
-    rep.rule("R9.1", "no path makes two breaker records (with C08: exactly one on every admitted path)")
+    rep.rule("R9.1", "exactly one breaker record on every path of an admitted call: never two, never none")
     rep.rule("R9.2", "the record kind matches the ending: return<->success; abort/cancellation kinds<->cancel; RetryExhaustedError / other Exception<->failure; execute: ok<->success, ABORTED<->cancel, else failure")
     record_by_outcome(rep, "R9.1", "R9.2", prog)
     rep.floor("R9.1", 100)
@@ -62,6 +62,11 @@ def record_by_outcome(rep: Report, r1: str, r2: str, prog: Program) -> None:
             rep.instance(r1, construct, {"entry": q, "exit": f"{ex.how}:{ex.kind}", "records": list(recs)} if len(rep.samples) < 20 else None)
             if len(recs) > 1:
                 rep.fail(r1, f"{short}|exit={ex.how}:{ex.kind}|records={','.join(recs)}", f"{q}: {len(recs)} breaker records {recs} on one path ending in {ex.how} {ex.kind or ''}", where=last_where(F, ex), function=q, path=F.witness(ex))
+                continue
+            if adm == "AD" and not recs:
+                # exactly once = at most once (above) and at least once (the obligation C08 R8.1 owns, restated here)
+                fn0, label0 = origin_of(F, ex)
+                rep.fail(r1, f"{short}|exit={ex.how}:{ex.kind}|records=none", f"{q}: an admitted call ends by {ex.how} {ex.kind or ''} without reporting to the breaker (exception first raised at `{label0}` in {fn0})", where=last_where(F, ex), function=q, path=F.witness(ex))
                 continue
             rep.ok(r1)
             if adm != "AD" or len(recs) != 1:
